@@ -49,10 +49,10 @@ PROPS = {
         assumptions=_CS_ASSUME,
     ),
     "C02": dict(
-        suite="coinswap", modules=["CantoVerif.Props.C02", "CantoVerif.Props.C02Monitors"] + _CS_BRIDGE_MODULES,
+        suite="coinswap", modules=["CantoVerif.Props.C02", "CantoVerif.Props.C02Monitors", "CantoVerif.Props.C02Add"] + _CS_BRIDGE_MODULES,
         theorems=["CV.Coinswap.rejected_unchanged", "CV.Coinswap.swap_conserves", "CV.Coinswap.remove_conserves",
                   "CV.Coinswap.add_conserves", "CV.group_flow", "CV.within_conserves", "CV.Bank.applyAll_flow",
-                  "CV.deliver_rejected_unchanged", "CV.later_failure_unchanged", "CV.runMsgs_fails", "CV.Coinswap.poolTax_ok", "CV.total_supply_inv", "CV.Coinswap.rejected_unchanged_monitor", "CV.Coinswap.swap_conserves_monitor", "CV.Coinswap.remove_conserves_monitor", "CV.Coinswap.removeEffs_sender_lpt", "CV.Coinswap.nodup_eraseDups"] + _CS_BRIDGE_CORE,
+                  "CV.deliver_rejected_unchanged", "CV.later_failure_unchanged", "CV.runMsgs_fails", "CV.Coinswap.poolTax_ok", "CV.total_supply_inv", "CV.Coinswap.rejected_unchanged_monitor", "CV.Coinswap.swap_conserves_monitor", "CV.Coinswap.remove_conserves_monitor", "CV.Coinswap.add_conserves_monitor", "CV.Coinswap.add_monitor_core", "CV.Coinswap.addAll_points", "CV.Coinswap.addAll_totals", "CV.Coinswap.removeEffs_sender_lpt", "CV.Coinswap.nodup_eraseDups"] + _CS_BRIDGE_CORE,
         comps={"outcome", "bank", "pools"}, triggers=_CS_TRIGGERS, assumptions=_CS_ASSUME),
     "C08": dict(
         suite="coinswap", modules=["CantoVerif.Props.C08", "CantoVerif.Props.C08AutoSwap", "CantoVerif.Props.C08Add"] + _CS_BRIDGE_MODULES,
@@ -90,7 +90,7 @@ TEXT = {
               "WHOLE bank ledger and supply of the real application before/after every message. The SDK's own registered invariants "
               "(bank total supply etc.) belong to trusted SDK modules and are not proved (they are evaluated on the real state during the run). "
               "later_failure_unchanged: a transaction containing a failing message leaves the state as it was whatever its earlier messages did "
-              "(exercised on the implementation by later=1 operations). rejected_unchanged_monitor, swap_conserves_monitor link the executable predicates."),
+              "(exercised on the implementation by later=1 operations). rejected_unchanged_monitor, swap_conserves_monitor, remove_conserves_monitor, add_conserves_monitor link the executable predicates."),
         note=COMMON_NOTE + "The coinswap module account is assumed not to be payer, recipient or escrow (it is a blocked module account)."),
     "C08": dict(
         text=("Proved for the model for all inputs: deadline_respected (success implies block time not past the deadline, incl. the "
@@ -101,7 +101,7 @@ TEXT = {
               "generates bounds from the implementation's own quote (quote-1, quote, quote+1) and compares responses. swap_delivered: the stated "
               "recipient's balance rises by exactly what the pool paid and the payer's falls by exactly what the pool received. The executable "
               "predicates evaluated on the implementation are proved of the model's transitions: deadline_monitor, swap_delivered_monitor, "
-              "swap_bounds_rounding_monitor, remove_bounds_monitor (add_bounds is not linked yet)."),
+              "swap_bounds_rounding_monitor, remove_bounds_monitor, add_bounds_cap_monitor, autoSwap_monitors."),
         note=COMMON_NOTE),
     "C09": dict(
         text=("Proved for the model for every parameter setting in force at the moment of the operation: swap_caps (exactly one standard "
